@@ -351,3 +351,93 @@ def hexs(b):
     if isinstance(b, str):
         b = b.encode("utf-8")
     return b.hex()
+
+
+# ---------------------------------------------------------------- running mlr safely
+def mlr_run(ctx, args, stdin=b"", timeout=20, max_out=50_000_000, env=None, cwd=None):
+    """Run the scratch-built mlr under a wall-clock timeout, an address-space limit and an output cap.
+    Returns (status, stdout_bytes, stderr_bytes) where status is an int exit code, or 'hang' on timeout.
+    Never raises.  Use classify_run() for the {ok, mlr_error, panic, hang} enum."""
+    import resource, tempfile
+
+    def lim():
+        resource.setrlimit(resource.RLIMIT_AS, (8 << 30, 8 << 30))
+        resource.setrlimit(resource.RLIMIT_FSIZE, (max_out, max_out))
+    e = dict(os.environ)
+    e.pop("MLRRC", None)
+    e["MLRRC"] = "__none__"
+    if env:
+        e.update(env)
+    if isinstance(stdin, str):
+        stdin = stdin.encode("utf-8")
+    try:
+        with tempfile.TemporaryFile() as fo, tempfile.TemporaryFile() as fe:
+            p = subprocess.Popen([ctx.mlr()] + list(args), stdin=subprocess.PIPE, stdout=fo, stderr=fe, env=e, cwd=cwd, preexec_fn=lim)
+            try:
+                p.communicate(stdin, timeout=timeout)
+                st = p.returncode
+            except subprocess.TimeoutExpired:
+                p.kill(); p.wait()
+                st = "hang"
+            fo.seek(0); fe.seek(0)
+            return st, fo.read(max_out), fe.read(1_000_000)
+    except Exception as ex:  # pragma: no cover
+        return "harness-error", b"", repr(ex).encode()
+
+
+def classify_run(st, err):
+    """small error enum used when comparing with models"""
+    if st == "hang":
+        return "hang"
+    if b"panic:" in err or b"fatal error:" in err or b"goroutine " in err or b"Internal coding error" in err:
+        return "panic"
+    if st == 0:
+        return "ok"
+    return "mlr_error"
+
+
+def parse_json_records(out):
+    """records from `mlr --ojson` output as list of list of (key, value) with values rendered as Miller prints them
+    (strings as-is; numbers keep their JSON text; nested values as compact JSON).  Returns None when not parseable."""
+    import collections
+    try:
+        txt = out.decode("utf-8", "surrogateescape") if isinstance(out, bytes) else out
+        data = json.loads(txt, object_pairs_hook=lambda kv: kv, parse_int=lambda s: NumText(s), parse_float=lambda s: NumText(s))
+    except Exception:
+        return None
+    recs = []
+    for rec in data:
+        recs.append([(k, v) for k, v in rec])
+    return recs
+
+
+class NumText(str):
+    """a JSON number kept as its source text"""
+    pass
+
+
+def dkvp(records, ifs=",", ips="=", irs="\n"):
+    """encode records (list of list of (k, v) str/bytes) as DKVP bytes; caller guarantees separator-freeness"""
+    def b(x):
+        return x if isinstance(x, bytes) else str(x).encode("utf-8")
+    return b"".join(b(ifs).join(b(k) + b(ips) + b(v) for k, v in r) + b(irs) for r in records)
+
+
+def coq_record(rec):
+    return "[" + "; ".join(f"({coq_bytes(k)}, {coq_bytes(v)})" for k, v in rec) + "]"
+
+
+def coq_records(recs):
+    return "[" + ";\n  ".join(coq_record(r) for r in recs) + "]"
+
+
+def coq_list(items):
+    return "[" + "; ".join(items) + "]"
+
+
+def coq_bool(b):
+    return "true" if b else "false"
+
+
+def coq_option(x, render):
+    return "None" if x is None else f"(Some {render(x)})"
